@@ -875,6 +875,11 @@ class View(Family):
             [['app', 0], ['app', 1], ['ng'], ['vad', 0], ['vad', 1], ['vps', 0, None], ['ng'], ['rem', 0]],
             [['app', 0], ['ng'], ['vas', 0, 0], ['vad', 0], ['vrs', 0, 0], ['vad', 0], ['vrd', 0]],
             [['vad', 0], ['app', 0], ['vad', 0], ['vad', 0], ['ng'], ['vrl', 0, 0], ['ng']],
+            # only the dataset's own layer is removed (the subset layers stay), then the dataset goes
+            [['app', 0], ['ng'], ['vad', 0], ['vrl', 0, None], ['vrd', 0]],
+            [['app', 0], ['ng'], ['vad', 0], ['vps', 0, None], ['vrd', 0], ['vad', 0]],
+            [['app', 0], ['app', 1], ['ng'], ['ng'], ['vad', 0], ['vad', 1], ['vrl', 0, None], ['rem', 0], ['vrd', 1]],
+            [['app', 0], ['ng'], ['vad', 0], ['vrl', 0, None], ['rst'], ['vrd', 0], ['vad', 0]],
         ]
         for ops in seeds:
             for c in keys:
